@@ -29,14 +29,14 @@ def emit_paths(I, P, spec, vios, name):
     return oks
 
 
-def run_repeat(ctx, report, timeout_ms):
-    spec = rich_spec()
-    ob = common.Obligation('O8.1', 'emit_wasm twice on the same Module: identical output (custom sections included) and the Module value is unchanged by emitting')
+def run_repeat(ctx, report, timeout_ms, name='rich', spec=None):
+    spec = spec or rich_spec()
+    ob = common.Obligation('O8.1' + ('' if name == 'rich' else ':' + name), 'emit_wasm twice on the same Module: identical output (custom sections included) and the Module value is unchanged by emitting')
     try:
         I, P = pc.new_pipeline(ctx)
         vios = []
         n = 0
-        for s, module in emit_paths(I, P, spec, vios, 'rich'):
+        for s, module in emit_paths(I, P, spec, vios, name):
             mref = I.halloc(s, module)
             before = outspec.canon(P.snap(s, module))
             for s2, rec, _m in P.run_emit(s, None, mref=mref):
@@ -74,16 +74,16 @@ def native_twice(r):
     return a != b, {'first_size': len(a or '') // 2, 'second_size': len(b or '') // 2}
 
 
-def run_order(ctx, report, timeout_ms):
-    spec = rich_spec()
-    ob = common.Obligation('O8.2', 'output independent of hash-container iteration order: the run is repeated with every hash map/set iterating in insertion, reversed and rotated order (B-tree containers in key order); all outputs must be identical')
+def run_order(ctx, report, timeout_ms, name='rich', spec=None):
+    spec = spec or rich_spec()
+    ob = common.Obligation('O8.2' + ('' if name == 'rich' else ':' + name), 'output independent of hash-container iteration order: the run is repeated with every hash map/set iterating in insertion, reversed and rotated order (B-tree containers in key order); all outputs must be identical')
     try:
         outs = {}
         vios = []
         for order in ('id', 'rev', 'rot'):
             I, P = pc.new_pipeline(ctx)
             I.map_order = order
-            for s, module in emit_paths(I, P, spec, vios, 'rich/' + order):
+            for s, module in emit_paths(I, P, spec, vios, name + '/' + order):
                 for s2, rec, _m in P.run_emit(s, module):
                     if rec is PANIC:
                         vios.append({'key': 'emit.panic', 'what': 'emit panics under iteration order ' + order, 'spec': spec, 'model': None, 'pc': list(s2.pc)})
@@ -111,8 +111,9 @@ def partly_readable_producers_spec():
     return sp
 
 
-def run_fixpoint(ctx, report, timeout_ms, variant):
-    spec = rich_spec() if variant == 'rich' else (partly_readable_producers_spec() if variant == 'partly-readable-producers' else scen.full_module(variant))
+def run_fixpoint(ctx, report, timeout_ms, variant, spec=None):
+    if spec is None:
+        spec = rich_spec() if variant == 'rich' else (partly_readable_producers_spec() if variant == 'partly-readable-producers' else scen.full_module(variant))
     ob = common.Obligation('O8.5:%s' % variant, 're-parsing walrus\'s own output (the recorded module turned back into a description) and emitting again reproduces it exactly (same sections, order, indices, immediates)')
     try:
         table = witness.load_table()
@@ -162,16 +163,24 @@ def run(tier, seed, only=None):
     ctx = common.Ctx()
     timeout_ms = 60000 if tier == 'quick' else 600000
 
-    def go():
-        run_repeat(ctx, report, timeout_ms)
-        run_order(ctx, report, timeout_ms)
-        run_fixpoint(ctx, report, timeout_ms, 'rich')
-        run_fixpoint(ctx, report, timeout_ms, 'partly-readable-producers')
-        if tier != 'quick':
-            for v in (0, 1, 2):
-                run_fixpoint(ctx, report, timeout_ms, v)
-    engine.run_in_big_stack(go)
-    report.bounds = {'description': 'the full module with names, producers, custom sections and a function with five used locals of two types', 'iteration orders': 'insertion, reversed, rotated by one (applied to every hash container at once)'}
+    from obligations import gen
+    gl = gen.generated(tier, seed, n_quick=6, n_thorough=48)
+
+    def job(ctx, report, kind, name, sp):
+        if kind == 'repeat':
+            run_repeat(ctx, report, timeout_ms, name, sp)
+        elif kind == 'order':
+            run_order(ctx, report, timeout_ms, name, sp)
+        else:
+            run_fixpoint(ctx, report, timeout_ms, name, sp)
+    items = [('repeat', 'rich', None), ('order', 'rich', None), ('fix', 'rich', None), ('fix', 'partly-readable-producers', None)]
+    if tier != 'quick':
+        items += [('fix', v, None) for v in (0, 1, 2)]
+    for name, sp in gl:
+        items += [('repeat', name, sp), ('order', name, sp), ('fix', name, sp)]
+    items = [i for i in items if not only or str(i[1]) in only]
+    pc.run_parallel(ctx, report, job, items)
+    report.bounds = {'generated': gen.bounds_text(tier, len(gl)) + ' x {emit twice, three hash orders, second round trip}', 'description': 'the full module with names, producers, custom sections and a function with five used locals of two types', 'iteration orders': 'insertion, reversed, rotated by one (applied to every hash container at once)'}
     report.assumptions = ['"same bytes" is claimed as "same recorded wasm-encoder calls with identical argument terms" (the byte encoding is wasm-encoder\'s, a deterministic function of those)',
                           'process-to-process determinism is reduced to independence of hash iteration order (the only source of run-to-run variation in a single-threaded build)']
     report.samples = [o.as_json() for o in report.obligations[:3]]
